@@ -8,6 +8,8 @@ engine 'kani' : harness crate under kani/, compiled against /repo on every run.
 UNITS = {
     "F64": dict(engine="verus", template="contracts/f64.vx", props=["C01", "C11", "C05", "C12", "C14"], rlimit=150,
                 desc="serial u64 field backend: FieldElement51 kernels against integer arithmetic mod p"),
+    "FG": dict(engine="verus", template="contracts/fg.vx", props=["C01", "C11", "C05"], rlimit=40,
+               desc="field.rs over the abstract field interface: ct_eq, is_negative, is_zero, pow22501, invert, pow_p58, sqrt_ratio_i, invsqrt"),
 }
 
 
